@@ -402,9 +402,24 @@ def run_shard(spec):
         chk.c["very_long_histories"] = chk.c.get("very_long_histories", 0) + 1
     if spec["shard"] % 2 == 0:
         node_lane(chk, rng, 2 if quick else 25)
+    if spec["shard"] % 4 == 1:
+        from skv import cstream
+        route_lane(chk.v, chk.c, rng, 3 if quick else 20, dict(cstream.C02_CLASSES), "c04r")
     samples.append({"kind": "exhaustive parent vectors", "up_to_new_blocks": nmax, "example": [0, 0, 1, 1, 2]})
     return {"evaluations": chk.c["arrivals_checked"], "digests": sorted(chk.digests), "violations": chk.viol,
             "counters": chk.c, "samples": samples, "exhaustive": True}
+
+
+def route_lane(add_violation, counters, rng, nhist, classes, tag):
+    """this property on the routes by which a RUNNING NODE takes blocks (relay and download, real store): histories in which the
+    node had asked a peer for blocks, blocks were announced, arrived unrequested, late, before their parent, or again with another
+    body (the stories of skv/props/c09.py), built from this check's classes of rule-breaking blocks"""
+    from skv.props import c09
+    mon = c09.route_histories(rng, nhist, 14, classes, tag)
+    counters["route_lane_deliveries"] = counters.get("route_lane_deliveries", 0) + mon.c.get("deliveries", 0)
+    counters["route_lane_stories"] = counters.get("route_lane_stories", 0) + mon.c.get("download_route_stories", 0)
+    for v in mon.viol:
+        add_violation("node-route:" + v["key"], v["msg"], v["witness"])
 
 
 def finalize(m, tier):
